@@ -58,7 +58,8 @@ def case_strategy(draw):
                 vals = frames.column(spec, draw(st.sampled_from(nums)))["values"]
                 lo, hi = vals.index(min(vals)), vals.index(max(vals))
                 idx = [i for i in range(n) if i not in (lo, hi)] or [0]
-        subsets.append({"rows": idx, "drop_unused_categories": draw(st.booleans()), "reset_index": draw(st.booleans())})
+        subsets.append({"rows": idx, "drop_unused_categories": draw(st.booleans()), "reset_index": draw(st.booleans()),
+                        "recast": draw(st.sampled_from([None, None, "str_to_category", "category_to_str"]))})
     return {"design": d, "frame": spec, "subsets": subsets}
 
 
@@ -71,6 +72,14 @@ def subframe(spec, sub):
                 c["categories"] = [x for x in c["categories"] if x in present]
     if sub.get("reset_index"):
         s["index"] = None
+    if sub.get("recast") == "str_to_category":  # the same values, held in another (equivalent) column type
+        for c in s["cols"]:
+            if c["kind"] == "str":
+                c["kind"], c["categories"], c["ordered"] = "cat", sorted(set(c["values"])), False
+    elif sub.get("recast") == "category_to_str":
+        for c in s["cols"]:
+            if c["kind"] == "cat" and all(isinstance(v, str) for v in c["values"]):
+                c["kind"] = "str"
     return frames.build(s)
 
 
